@@ -15,7 +15,7 @@ pub const CHAIN_KINDS: &[&str] = &[
 pub const BATCH_KINDS: &[&str] = &[
     "concat", "delete_by_name", "delete_by_index", "delete_by_keypath", "array_insert", "object_insert", "object_delete",
     "object_pick", "strip_nulls", "build_array", "build_object", "array_distinct", "array_intersection", "array_except",
-    "select", "write_to_vec", "lazy_write", "convert_to_comparable",
+    "select", "write_to_vec", "lazy_write", "convert_to_comparable", "number_compact_encode",
 ];
 
 /// Picks a register, preferring (4 in 5) one whose root satisfies `want`.
@@ -338,6 +338,7 @@ pub fn gen_op(r: &mut Rng, kind: &str, regs: &[MVal], cfg: &OpGenCfg) -> Op {
         "write_to_vec" => Op::WriteToVec { v: any(r) },
         "lazy_write" => Op::LazyWrite { v: any(r), raw: r.chance(1, 2) },
         "convert_to_comparable" => Op::ConvertToComparable { v: any(r) },
+        "number_compact_encode" => Op::NumberEncode { v: pick_reg(r, regs, |v| v.is_number()) },
         k => unreachable!("unknown op kind {k}"),
     }
 }
